@@ -27,7 +27,22 @@ PROP = dict(
          "Processors) are only checked for totality / one-line strings. Records ein.rt (one per random message list) = "
          "RawPanelASCIIstringsToInboundMessages(InboundMessagesToRawPanelASCIIstrings(msgs)): EQ = decIn(encIn msgs) of the "
          "two Lean models, H1 = the returned messages have exactly the effects of the submitted ones (theorem "
-         "C02.roundtrip_in; records outside InDomainIn / roundtripGuard tagged B:rt-outdom). non-trivial = at least one line produced; "
+         "C02.roundtrip_in; records outside InDomainIn / roundtripGuard tagged B:rt-outdom). Scenario classes (after the random "
+         "stream, every run; x10 in the thorough tier): (a) ein.seq = 2-5 calls on different message lists, every returned slice kept "
+         "and snapshotted at return time, the record reports the snapshots and the kept slices AS READ AFTER THE LAST CALL (a later "
+         "call must not change an earlier result: shared storage); ein.par = the same with the calls of even / odd index in two "
+         "goroutines, 12 repetitions each; (b) the same message / state (same component ids; identical images A B A) / register "
+         "more than once in one call with others in between (A B A, A A, A X A B A); (d) 1500 message lists drawn with coinciding "
+         "values (every numeric draw repeats the previous one with probability 1/3, every string the previous string, ids repeat: "
+         "X = Y = W, RangeLow = RangeHigh, Title = Textline1, index next to RGB ...), 40 % of them with out-of-range enums; (e) "
+         "ein.reuse = a message list is converted, its message OBJECTS are overwritten in place with a second list (sub-messages "
+         "keep their addresses wherever both lists have one; dense messages with every section) and the same pointers are converted "
+         "again; (f) strings of 201-2000 bytes in title, text lines, calibration payload, register id; every record whose input or "
+         "output carries a byte string longer than 200 bytes (and every third other record) is executed a second time with "
+         "DebugRWPhelpers on: a differing result is what the record reports; ein.fields = the Message.field names of the real "
+         "protobuf descriptors reachable from InboundMessage equal Model.In.protoFieldsRead ++ protoFieldsOpaque. Every result of a "
+         "multi-call record is judged like an ein.msgs record of its call (EQ with the model, H1 by the Spec; clause suffix @part<j>). "
+         "non-trivial = at least one line produced; "
          "distinct = distinct record text; branch tags = line families present in the record",
     trusted_base=["encoding/json (SetNetworkConfig text: supplied by the harness, opaque; Processors JSON: outside the domain)",
                   "proto.Equal(x, &T{}) modelled as structural equality with the all-default message (harness decodes with DiscardUnknown)",
@@ -53,11 +68,17 @@ CLAIM = dict(
          "wire_domain_contains_domain + mask_invisible_on_domain: the two theorems agree on InDomainIn; "
          "mode_pack_masked, ext_pack_masked, colIndex_pack_masked, text_line_masked are the kernels without range. "
          "The SetNetworkConfig clause is exercised with a concrete non-trivial oracle (witnessOracle) in examples. "
+         "proto_fields_partition + enc_ignores_unread / enc_ignores_unread_eq: every proto field reachable from InboundMessage is read "
+         "by the model or lies under Processors (JSON only); the lines depend on Model.In.carried m only (colour index next to RGB, "
+         "X / Y without offset flag, a scale without positive type, the integer value under formatting 7/10/11, the font size under "
+         "any other, id / value of a register of unknown kind are never read), for every message list. "
          "Kernels proved for all values by arithmetic: mode_pack, ext_pack, colIndex_pack, colRGB_pack (every 32-bit "
          "channel value -> 2-bit level), textColor_pack_*, text_fields (any field list without '|'), chunk_len_le_170, "
          "chunk_count, chunks_concat, b64_roundtrip; enc_ok (no panic on any input). Resting on correspondence, not "
          "proof: that the Go encoder equals the Lean model encIn (EQ on every generated record + exhaustive kernel "
-         "sweeps through the real encoder), and the opaque encoding/json text of SetNetworkConfig.",
+         "sweeps through the real encoder), in particular that it is a FUNCTION of its argument (no state kept between calls, no "
+         "result storage shared with later calls or other goroutines, nothing cached by object address: ein.seq / ein.par / "
+         "ein.reuse records) and unaffected by DebugRWPhelpers, and the opaque encoding/json text of SetNetworkConfig.",
     note=TB + "The reference reader is itself the specification of the ASCII grammar (Appendix B); a message text/graphics "
          "sub-message equal to the all-default message, and image data of length 0, have no ASCII representation and "
          "carry no effect (excluded from the domain, as the encoder deliberately emits nothing).",
